@@ -18,14 +18,18 @@ LEVEL = "exploration"
 TECHNIQUE = ("generated template sets with one marked single-line failing construct; expected line "
              "counted by the harness from the source text; traceback.extract_tb / "
              "TemplateSyntaxError.lineno compared")
-RULE = ("case = (site kind [92 single-line raising forms: calls in every expression position of "
+RULE = ("case = (site kind [114 single-line raising forms: calls in every expression position of "
         "{{ }}/set/if/elif/for/for-filter/with/print/do/call/filter-block/set-block/macro default/"
         "macro and call-block arguments/filter and test arguments/include/import/from/extends/"
         "autoescape/trans, raising filter/test/attribute/item/method, division by zero, "
         "StrictUndefined chains, missing include/import, 27 compile-time CONSTANT expressions that "
         "cannot be evaluated or printed (constant subscript/attribute misses under StrictUndefined, "
         "constant filter/test/operator applications that raise, in {{ }}, if, set, for, print, "
-        "filter blocks), 6 values rejected by a raising finalize hook (constant and variable) | 39 multi-line statements whose raising "
+        "filter blocks), 6 values rejected by a raising finalize hook (constant and variable), 23 uses of a "
+        "filter / test the environment does NOT provide placed directly in an if / elif / else body or "
+        "condition or in an inline if (value / condition / else part; printed, set, call argument, "
+        "chained, with arguments, under and / not): the template loads and executing the use raises "
+        "TemplateRuntimeError | 49 multi-line statements whose raising "
         "tag is a single-line tag on a line of its own between other branches/statements (elif "
         "conditions, else/elif/for-else bodies, second statements of bodies, tags after a closed "
         "statement) | 22 single-line malformed forms], optional '-' whitespace control on the site "
@@ -51,6 +55,11 @@ ASSUMPTIONS = [
     "a well-formed template whose failing construct is a constant expression loads without error; "
     "the error is raised when the construct is rendered (otherwise no template line could be "
     "reported for it at all)",
+    "a filter / test that the environment does not provide and that is used directly inside an "
+    "if-statement or conditional expression is an error of EXECUTING that use (CHANGES 2.11: 'Do not "
+    "raise an error for undefined filters in unexecuted if-statements and conditional expressions'): "
+    "the template loads, rendering raises TemplateRuntimeError, and the line to report is the line "
+    "of the tag that uses the filter / test; such uses are given positional arguments only",
     "for dict-loaded templates every template frame carries the same pseudo filename, so only the "
     "line (not which template) is checked there; the filesystem loader checks both",
 ]
@@ -62,7 +71,10 @@ FLOORS = {
                            "fs_filename_checks": 300, "async_cases": 400,
                            "site_after_stripped_newlines": 300, "crossed_template": 500,
                            "multiline_before_site": 2500, "const_site_checks": 250,
-                           "finalize_env_cases": 250, "load_checks": 2000}},
+                           "finalize_env_cases": 250, "load_checks": 2000,
+                           # 711 / 453 in a time-boxed quick run at load
+                           "missing_filter_in_conditional_site_checks": 150,
+                           "missing_test_in_conditional_site_checks": 100}},
     # thorough: 960k evaluations / 913k distinct in 281 s (count-bounded) at load
     # ~1x, 417k / 403k (time-boxed) at load ~4x; floors = 1/4 of the latter
     "thorough": {"evaluations": 100000, "distinct": 95000,
@@ -70,7 +82,9 @@ FLOORS = {
                               "fs_filename_checks": 21000, "async_cases": 32000,
                               "site_after_stripped_newlines": 24000, "crossed_template": 44000,
                               "multiline_before_site": 95000, "const_site_checks": 15000,
-                              "finalize_env_cases": 12000, "load_checks": 100000}},
+                              "finalize_env_cases": 12000, "load_checks": 100000,
+                              "missing_filter_in_conditional_site_checks": 6000,
+                              "missing_test_in_conditional_site_checks": 4000}},
 }
 
 SITE = "\x00SITE\x00"
@@ -207,6 +221,42 @@ RAISING = [
     ("finalize-const-item", "{{ [1, none][1] }}", "Boom", "finalize"),
     ("finalize-var", "{{ finvar }}", "Boom", "finalize"),
     ("finalize-call", "{{ ident(none) }}", "Boom", "finalize"),
+    # a filter / test the environment does not provide, used DIRECTLY inside an if / elif / else
+    # body or condition or an inline if: the template loads (CHANGES 2.11 'Do not raise an error for
+    # undefined filters in unexecuted if-statements and conditional expressions'), executing the
+    # use raises TemplateRuntimeError - at this line
+    ("missing-filter-in-if-body", "{% if true %}{{ 'a'|nosuchfilter }}{% endif %}", "TemplateRuntimeError"),
+    ("missing-filter-in-if-body/arg", "{% if items %}<b>{{ items|nosuchfilter(1, 'x') }}</b>{% endif %}",
+     "TemplateRuntimeError"),
+    ("missing-filter-in-if-body/chained", "{% if true %}{{ 'a'|upper|nosuchfilter|lower }}{% endif %}",
+     "TemplateRuntimeError"),
+    ("missing-filter-in-else-body", "{% if false %}a{% else %}{{ 'a'|nosuchfilter }}{% endif %}",
+     "TemplateRuntimeError"),
+    ("missing-filter-in-elif-body", "{% if false %}a{% elif true %}{{ 'a'|nosuchfilter }}{% endif %}",
+     "TemplateRuntimeError"),
+    ("missing-filter-in-if-cond", "{% if 'a'|nosuchfilter %}x{% endif %}", "TemplateRuntimeError"),
+    ("missing-filter-in-elif-cond", "{% if false %}a{% elif 'a'|nosuchfilter %}x{% endif %}",
+     "TemplateRuntimeError"),
+    ("missing-filter-in-if-set", "{% if true %}{% set q = 'a'|nosuchfilter %}{% endif %}",
+     "TemplateRuntimeError"),
+    ("missing-filter-in-nested-if", "{% if true %}{% if false %}{% else %}{{ zero|nosuchfilter }}{% endif %}{% endif %}",
+     "TemplateRuntimeError"),
+    ("missing-filter-in-inline-if/else", "{{ 'a' if false else 'b'|nosuchfilter }}", "TemplateRuntimeError"),
+    ("missing-filter-in-inline-if/value", "{{ 'b'|nosuchfilter if true else 'a' }}", "TemplateRuntimeError"),
+    ("missing-filter-in-inline-if/cond", "{{ 1 if 'b'|nosuchfilter else 2 }}", "TemplateRuntimeError"),
+    ("missing-filter-in-inline-if/set", "{% set q = zero|nosuchfilter if items else 0 %}", "TemplateRuntimeError"),
+    ("missing-filter-in-inline-if/call-arg", "{{ ident('b'|nosuchfilter if true else 'a') }}",
+     "TemplateRuntimeError"),
+    ("missing-test-in-if-cond", "{% if 1 is nosuchtest %}x{% endif %}", "TemplateRuntimeError"),
+    ("missing-test-in-if-cond/not", "{% if zero is not nosuchtest(3) %}x{% endif %}", "TemplateRuntimeError"),
+    ("missing-test-in-if-cond/and", "{% if items and zero is nosuchtest %}x{% endif %}", "TemplateRuntimeError"),
+    ("missing-test-in-elif-cond", "{% if false %}{% elif 1 is nosuchtest %}x{% endif %}", "TemplateRuntimeError"),
+    ("missing-test-in-if-body", "{% if true %}{{ 1 is nosuchtest }}{% endif %}", "TemplateRuntimeError"),
+    ("missing-test-in-else-body", "{% if false %}{% else %}{{ 1 is nosuchtest }}{% endif %}", "TemplateRuntimeError"),
+    ("missing-test-in-inline-if/cond", "{{ 'odd' if 1 is nosuchtest else 'even' }}", "TemplateRuntimeError"),
+    ("missing-test-in-inline-if/and", "{{ 'odd' if items and zero is nosuchtest else 'even' }}",
+     "TemplateRuntimeError"),
+    ("missing-test-in-inline-if/value", "{{ (1 is nosuchtest) if true else 'even' }}", "TemplateRuntimeError"),
 ]
 # statements spanning several lines; the tag that holds the raising expression
 # is a complete single-line tag on a line of its own (marked @@), with other
@@ -257,6 +307,22 @@ RAISING_ML = [
     ("ml:const-elif-cond", "{% if false %}\nq\n@@{% elif 1 // 0 %}\nx\n{% endif %}", "ZeroDivisionError"),
     ("ml:const-else-body", "{% if false %}\na\n{% else %}\nb\n@@{{ {'k': 1}.missing }}\n{% endif %}", "UndefinedError"),
     ("ml:const-for-body", "{% for q in items %}\n{{ q }}\n@@{{ 1 % 0 }}\n{% endfor %}", "ZeroDivisionError"),
+    ("ml:missing-filter-in-if-body", "{% if true %}\nq\n@@{{ 'a'|nosuchfilter }}\n{% endif %}", "TemplateRuntimeError"),
+    ("ml:missing-filter-in-if-body/second", "a\nb\n{% if items %}\n{{ 1 }}\n@@  <b>{{ zero|nosuchfilter }}</b>\n{% endif %}\nlast",
+     "TemplateRuntimeError"),
+    ("ml:missing-filter-in-else-body", "{% if false %}\na\n{% else %}\nb\n@@{{ items|nosuchfilter }}\n{% endif %}",
+     "TemplateRuntimeError"),
+    ("ml:missing-filter-in-elif-body", "{% if false %}\na\n{% elif true %}\n@@{{ items|nosuchfilter }}\n{% else %}\nc\n{% endif %}",
+     "TemplateRuntimeError"),
+    ("ml:missing-filter-in-if-cond", "{% set _p = 1 %}\n@@{% if 'a'|nosuchfilter %}\nx\n{% endif %}", "TemplateRuntimeError"),
+    ("ml:missing-test-in-if-cond", "{% set _p = 1 %}\nx\n@@{% if 1 is nosuchtest %}\nx\n{% endif %}", "TemplateRuntimeError"),
+    ("ml:missing-test-in-elif-cond", "{% if false %}\nq\n@@{% elif 1 is nosuchtest %}\nx\n{% endif %}",
+     "TemplateRuntimeError"),
+    ("ml:missing-test-in-if-body", "{% if true %}\nq\n\n@@{{ 'odd' if zero is nosuchtest else 'even' }}\n{% endif %}",
+     "TemplateRuntimeError"),
+    ("ml:missing-filter-in-inline-if", "a\n{{ 1 }}\n@@{{ 'a' if false else 'b'|nosuchfilter }}\nb", "TemplateRuntimeError"),
+    ("ml:missing-test-in-inline-if", "a\n{% set _p = 1 %}\n@@{{ 'odd' if 1 is nosuchtest else 'even' }}\nb",
+     "TemplateRuntimeError"),
 ]
 MALFORMED = [
     ("binop-eof", "{{ 1 + }}"), ("stray-paren", "{{ ) }}"), ("pipe-eof", "{{ x | }}"),
@@ -603,6 +669,10 @@ def _check(ctx, case, tmpdir, jinja2):
                 return
         if const_site:
             ctx.count("const_site_checks")
+        if "missing-filter" in mech:
+            ctx.count("missing_filter_in_conditional_site_checks")
+        if "missing-test" in mech:
+            ctx.count("missing_test_in_conditional_site_checks")
     exc = None
     try:
         t = env.get_template("main.html")
